@@ -17,7 +17,7 @@ func init() {
 		Explanation: `R13.1 every read of the underlying source is counted: source.Read / source.ReadByte / DiscardByRead(source) occur only in countingReader.Read, countingReader.ReadByte and ReadContext.Resume, each of which updates r.offset from the call's result; ReadMessage and ExpectMagic read only through the counting reader; ` +
 			`R13.2 the three-state save protocol: WantSave asks the source and moves to 'waiting' only from 'idle'; the source callback stores the source checkpoint and moves to 'has checkpoint'; PopCheckpoint returns a checkpoint only in that state, built from r.offset and r.sourceCheckpoint, and is not reachable from ReadMessage (so the offset is a message boundary); ` +
 			`R13.3 codec pairing: the algorithms with a registered compressor are exactly those with a registered decompressor, each Apply builds its stream with a constructor from a package named after the algorithm, and NONE is a pass-through on both sides; ` +
-			`R13.4 every magic constant written has a reader expecting the same constant; R13.5 in package wire the byte count returned by a Read call is never discarded (a source may return 0, nil at a save point). ` +
+			`R13.4 every magic constant written has a reader expecting the same constant; R13.5 in package wire the byte count returned by a Read call is never discarded (a source may return 0, nil at a save point); R13.6 every success return of ReadMessage has passed msg.Reset() and the unmarshalling of the bytes just read (decoding merges, so without the reset an all-default message reads back as its predecessor). ` +
 			`NOT decided: the round trip itself, buffer regrowth, decompressor checkpoints lagging the message offset (savior's code).`,
 		Assumptions: []string{"the underlying source is the field source of wire.ReadContext"},
 		Run:         runC13,
@@ -30,6 +30,7 @@ func runC13(c *core.Ctx) {
 	c.Rule("R13.3", "codec pairing")
 	c.Rule("R13.4", "magic pairing")
 	c.Rule("R13.5", "Read counts are not discarded in package wire")
+	c.Rule("R13.6", "ReadMessage resets and decodes on every success path")
 	crRead := c.P.Fn("wire", "countingReader.Read")
 	crReadByte := c.P.Fn("wire", "countingReader.ReadByte")
 	resume := c.P.Fn("wire", "ReadContext.Resume")
@@ -168,6 +169,44 @@ func runC13(c *core.Ctx) {
 		c.Floor("R13.1", "framing reads in "+fn.Name(), n, 1)
 	}
 
+	// ---- R13.6: what ReadMessage hands back is the message that was read, nothing of what the struct held before
+	{
+		isDecode := func(in ssa.Instruction) bool {
+			cl, ok := in.(ssa.CallInstruction)
+			if !ok {
+				return false
+			}
+			n := core.CalleeName(cl)
+			return strings.HasSuffix(n, "proto.Buffer).Unmarshal") || strings.HasSuffix(n, "proto.Unmarshal") || strings.HasSuffix(n, "proto.Buffer).DecodeMessage")
+		}
+		isReset := func(in ssa.Instruction) bool {
+			cl, ok := in.(*ssa.Call)
+			if !ok {
+				return false
+			}
+			if cl.Call.IsInvoke() && cl.Call.Method.Name() == "Reset" {
+				for _, p := range readMsg.Params {
+					if cl.Call.Value == ssa.Value(p) {
+						return true
+					}
+				}
+			}
+			// proto.Unmarshal (as opposed to Buffer.Unmarshal / UnmarshalMerge) resets the message itself
+			return strings.HasSuffix(core.CalleeName(cl), "proto.Unmarshal")
+		}
+		n := 0
+		for _, rs := range successReturns(readMsg) {
+			n++
+			p := core.FindPath(readMsg, nil, isInstr(rs.Ret), isReset)
+			c.Check(p == nil, "R13.6", core.FnName(readMsg), "a successful read has reset the destination message", core.InstrPos(rs.Ret),
+				"every path to this success return calls msg.Reset()", "ReadMessage can succeed without resetting the destination: decoding merges into it, so fields of the message previously read into the same struct survive (an all-default message reads back as its predecessor)").Path = c.P.PathStrings(p)
+			p = core.FindPath(readMsg, nil, isInstr(rs.Ret), isDecode)
+			c.Check(p == nil, "R13.6", core.FnName(readMsg), "a successful read has decoded the payload", core.InstrPos(rs.Ret),
+				"every path to this success return unmarshals the bytes just read", "ReadMessage can succeed without decoding the payload it consumed").Path = c.P.PathStrings(p)
+		}
+		c.Floor("R13.6", "success returns of ReadMessage", n, 1)
+	}
+
 	// ---- R13.2
 	stateConst := func(name string) int64 {
 		if k, ok := c.P.Pkg("wire").Types.Scope().Lookup(name).(*types.Const); ok {
@@ -207,9 +246,11 @@ func runC13(c *core.Ctx) {
 			"saveState = waiting on the same path as the request", "the state is not moved to 'waiting' on the path that asks the source")
 		// the callback
 		var cb *ssa.Function
-		for _, lit := range newRC.AnonFuncs {
-			if firstInstr(lit, stateStore(has)) != nil {
-				cb = lit
+		// (a literal in NewReadContext, or a method used as the callback: whichever function of the package
+		// records the delivery)
+		for _, f := range c.P.SrcFuncs() {
+			if strings.HasSuffix(core.PkgPathOf(f), "/wire") && firstInstr(f, stateStore(has)) != nil {
+				cb = f
 			}
 		}
 		if cb == nil {
@@ -221,7 +262,15 @@ func runC13(c *core.Ctx) {
 					return false
 				}
 				_, n, ok := core.FieldOf(st.Addr)
-				return ok && n == "sourceCheckpoint" && len(cb.Params) > 0 && st.Val == ssa.Value(cb.Params[0])
+				if !ok || n != "sourceCheckpoint" {
+					return false
+				}
+				for _, p := range cb.Params { // a literal's only parameter, or a method's after the receiver
+					if st.Val == ssa.Value(p) && core.TypeName(p.Type()) == "github.com/itchio/savior.SourceCheckpoint" {
+						return true
+					}
+				}
+				return false
 			})
 			c.Check(stCk != nil && core.FindPath(cb, nil, isReturn, stateStore(has)) == nil, "R13.2", core.FnName(cb), "callback stores the source checkpoint and moves to has-checkpoint", cb.Pos(),
 				"both on every path", "the source's save callback does not record the checkpoint and the state on every path")
@@ -231,8 +280,17 @@ func runC13(c *core.Ctx) {
 				if st, ok := in.(*ssa.Store); ok {
 					if _, n, ok := core.FieldOf(st.Addr); ok && n == "OnSave" {
 						for _, o := range core.Origins(st.Val) {
-							if mc, ok := o.(*ssa.MakeClosure); ok && mc.Fn == cb {
-								inst = true
+							if mc, ok := o.(*ssa.MakeClosure); ok {
+								if mc.Fn == cb {
+									inst = true
+								} else if w, ok := mc.Fn.(*ssa.Function); ok && w.Synthetic != "" {
+									// a method value: the bound-method wrapper calls the method
+									core.Instrs(w, func(x ssa.Instruction) {
+										if cl, ok := x.(ssa.CallInstruction); ok && cl.Common().StaticCallee() == cb {
+											inst = true
+										}
+									})
+								}
 							}
 						}
 					}
@@ -477,12 +535,13 @@ func ruleCodecPairing(c *core.Ctx, rule string) {
 		noneTest := false
 		core.Instrs(fn, func(in ssa.Instruction) {
 			if ifi, ok := in.(*ssa.If); ok {
-				if bo, ok := ifi.Cond.(*ssa.BinOp); ok && bo.Op == token.EQL {
-					if _, n, ok := core.FieldOf(bo.X); ok && n == "Algorithm" {
-						if k, isC := core.ConstInt(bo.Y); isC && algName[k] == "NONE" {
-							noneTest = true
-						}
-					}
+				isNone := func(v ssa.Value) bool {
+					k, isC := core.ConstInt(v)
+					return isC && algName[k] == "NONE"
+				}
+				// Algorithm == NONE or != NONE, either way round: one outcome is the pass-through
+				if condHolds(ifi.Cond, true, token.EQL, isField("Algorithm"), isNone) || condHolds(ifi.Cond, false, token.EQL, isField("Algorithm"), isNone) {
+					noneTest = true
 				}
 			}
 		})
@@ -493,7 +552,8 @@ func ruleCodecPairing(c *core.Ctx, rule string) {
 		for _, lk := range lookups {
 			core.Instrs(fn, func(in ssa.Instruction) {
 				if ifi, ok := in.(*ssa.If); ok {
-					if bo, ok := ifi.Cond.(*ssa.BinOp); ok && bo.Op == token.EQL && core.IsNilConst(bo.Y) && sharesOrigin(bo.X, lk.(*ssa.Lookup)) {
+					isLk := func(v ssa.Value) bool { return sharesOrigin(v, lk.(*ssa.Lookup)) }
+					if condHolds(ifi.Cond, true, token.EQL, isLk, core.IsNilConst) || condHolds(ifi.Cond, false, token.EQL, isLk, core.IsNilConst) {
 						okNil = true
 					}
 				}
